@@ -79,7 +79,9 @@ static void env_run(void)
 static void vf_env_futex_wait(ABTD_futex_multiple *f, ABTD_spinlock *p) { vf_env_spin_release(p); env_run(); }
 static void vf_env_futex_timedwait(ABTD_futex_multiple *f, ABTD_spinlock *p, double dt) { vf_env_spin_release(p); env_run(); }
 static void vf_env_futex_broadcast(ABTD_futex_multiple *f) { VF_ASSERT(lk_held, "futex broadcast under the list lock"); futex_bcasts++; }
-static void vf_env_yield(ABTI_xstream **pp, ABTI_ythread *self, ABTI_ythread_yield_kind k, ABT_sync_event_type t, void *s) { env_run(); }
+static ABTI_xstream xs2; /* the stream a ULT finds itself on after a context switch */
+static int switched;
+static void vf_env_yield(ABTI_xstream **pp, ABTI_ythread *self, ABTI_ythread_yield_kind k, ABT_sync_event_type t, void *s) { env_run(); *pp = &xs2; switched = 1; }
 static int me_suspended;
 static void vf_env_suspend_unlock(ABTI_xstream **pp, ABTI_ythread *self, ABTD_spinlock *p, ABT_sync_event_type t, void *s)
 {
@@ -91,6 +93,7 @@ static void vf_env_suspend_unlock(ABTI_xstream **pp, ABTI_ythread *self, ABTD_sp
     /* a suspended ULT runs again only if it was resumed */
     int resumed = 0; for (int i = 0; i < n_woken; i++) if (woken[i] == &self->thread) resumed = 1;
     VF_ASSUME(resumed);
+    *pp = &xs2; switched = 1; /* ... possibly on another execution stream */
 }
 static void vf_env_resume_and_push(ABTI_local *l, ABTI_ythread *y)
 {
@@ -204,12 +207,13 @@ void h_waitlist_script(void)
     as_ult = VF_ULT;
 #endif
     if (as_ult) { xs.p_thread = &self_ult.thread; self_ult.thread.type = ABTI_THREAD_TYPE_YIELDABLE; self_ult.thread.state.val = ABT_THREAD_STATE_RUNNING; p_local = (ABTI_local *)&xs; }
-    me_signalled = 0; saw_deadline = 0;
+    me_signalled = 0; saw_deadline = 0; switched = 0;
     vf_env_spin_acquire(&lk); /* the caller of wait holds the list lock */
     ABT_bool timedout = ABT_FALSE;
     if (me_timed) timedout = vf2_waitlist_wait_timedout_and_unlock(&p_local, &wl, &lk, deadline_, ABT_SYNC_EVENT_TYPE_COND, NULL);
     else vf2_waitlist_wait_and_unlock(&p_local, &wl, &lk, ABT_SYNC_EVENT_TYPE_COND, NULL);
     VF_ASSERT(!lk_held && n_rel == n_acq, "wait returns with the list lock released, every acquire matched");
+    if (as_ult && switched) VF_ASSERT(p_local == (ABTI_local *)&xs2, "after a context switch the caller's local-stream pointer is refreshed (the ULT may resume on another stream)");
     if (!env_done) {
         /* never slept: only a timed waiter whose deadline had already passed */
         VF_ASSERT(me_timed && timedout && saw_deadline, "returns without sleeping only when the deadline had already passed");
